@@ -219,6 +219,9 @@ Section CacheGuard.
     end.
 End CacheGuard.
 
+(* both guards use the built-in checker (BasicObligationChecker) *)
+Definition builtin_both (_ : bool) : raw -> value -> option (bool * option string) := builtin_oblig.
+
 Arguments cst {T}.
 Arguments c_empty {T}.
 Arguments c_step {T}.
